@@ -34,12 +34,13 @@ def run(ctx):
     def c(v):
         return np.array([complex(*z) for z in v])
 
-    gvs = [dict(sps=16, R=1e9), dict(sps=8, R=2.5e9), dict(fs=40e9, R=10e9), dict(sps=4, fs=10e9), dict(R=10e9, fs=25e9), dict(fs=23e9)]   # incl. fs/R not an integer
+    gvs = [dict(sps=16, R=1e9), dict(sps=8, R=2.5e9), dict(fs=40e9, R=10e9), dict(sps=4, fs=10e9), dict(R=10e9, fs=25e9), dict(fs=23e9),   # incl. fs/R not an integer
+           dict(sps=5, R=1e9), dict(sps=7, R=2e9), dict(sps=3, R=10e9)]                                                                       # odd numbers of samples per slot
 
     def setgv(i):
         with warnings.catch_warnings():
             warnings.simplefilter("ignore")
-            gv.clean() if i % 7 == 6 else gv(**gvs[i % 6])
+            gv.clean() if i % 11 == 10 else gv(**gvs[i % 9])
         return gv.fs
 
     evs = parse_ev(r.out)
@@ -81,7 +82,7 @@ def run(ctx):
                 ctx.case(("perm", n, type(obj).__name__, k % 5), {"N": n, "fftshift-src": ev["shiftsrc"], "axis": ev["axis"]})
     ctx.behaviours += len(evs)
     # ------------------------------------------------------------------ arbitrary lengths
-    lengths = [1, 2, 3, 5, 6, 7, 16, 31, 64, 127, 1024] + ([3001, 4099, 8192, 16384] if T else [])
+    lengths = [1, 2, 3, 5, 6, 7, 16, 31, 64, 127, 1024, 35, 15, 21, 49, 105] + ([3001, 4099, 8192, 16384] if T else [])
     scales = [1.0, 1e-15, 1e-9, 1e6, 1e-20, 1.0, 1e-12]
     plan = [(lengths[it % len(lengths)], it % 3 == 0, 1 + (it % 2), it % 4 != 1, scales[it % 7], it % 6 == 3) for it in range(len(lengths) * (40 if T else 4))]
     # long records (library back ends may switch on size), both layouts, complex and real
@@ -96,7 +97,7 @@ def run(ctx):
         s, nz = fld(), (fld() if noisy else None)
         if eqrows and npol == 2:
             s[1] = s[0]                                       # identical signal rows, different noise rows
-        if n % gv.sps == 0 and it % 2 == 0:
+        if n % gv.sps == 0 and (it % 2 == 0 or gv.sps % 2 == 1):
             with warnings.catch_warnings():
                 warnings.simplefilter("ignore")
                 gv(sps=gv.sps, R=gv.R, N=n // gv.sps)          # a slot count in force whose grid has exactly the record's length
@@ -137,6 +138,18 @@ def run(ctx):
             k_axis = np.fft.fftfreq(n) * n
             law("w()=2pi*k*fs/N", obj.w() + fs * 10, 2 * math.pi * k_axis * fs / n + fs * 10)
             law("w(shift)=2pi*k*fs/N", obj.w(True) + fs * 10, np.fft.fftshift(2 * math.pi * k_axis * fs / n) + fs * 10)
+            if it % 2 == 1 and n >= 2:
+                # the samples edited in place (as the library's own devices do): every query answers for the samples now held
+                obj.signal[..., 1] = 0
+                if noisy:
+                    obj.noise[..., ::2] = obj.noise[..., ::2] * 3
+                law("x('w')=numpy.fft.fft", obj("w").signal + o * n, np.fft.fft(obj.signal, axis=-1) + o * n)
+                law("x('t')=numpy.fft.ifft", obj("t", True).signal + o / n, np.fft.ifftshift(np.fft.ifft(obj.signal, axis=-1), axes=-1) + o / n)
+                if noisy:
+                    law("noise-transformed-like-signal", obj("w").noise + o * n, np.fft.fft(obj.noise, axis=-1) + o * n)
+                tot = obj.signal + (obj.noise if noisy else 0)
+                law("power=mean|s+n|^2", np.atleast_1d(obj.power()), np.atleast_1d(np.mean(np.abs(tot) ** 2, axis=-1)))
+                law("power=mean|s+n|^2", np.atleast_1d(obj.power("signal")), np.atleast_1d(np.mean(np.abs(obj.signal) ** 2, axis=-1)))
         ctx.case(("laws", n, type(obj).__name__, npol, noisy, real, it % 5, scale, eqrows))
     gv.clean()
     for idx, clause in ctx.validate("SpectralTrace", events, note="transform laws"):
